@@ -48,3 +48,10 @@ Theorem C02_new_value : forall nt, fin nt -> 0 < R_ nt <= bpow radix2 43 ->
   Rabs (theta (from_total nt) - R_ nt) <= R_ eps10 + / 4503599627370496.
 Proof. exact from_total_value. Qed.
 Print Assumptions C02_new_value.
+
+(* negative quarter turns written with divisor 2: a forward rotation of between 3 and 6 blades,
+   congruent to d modulo 4 (so fewer than two turns), remainder exactly 0 *)
+Theorem C02_fast_path_negative : forall d, (- 2 ^ 50 < d < 0)%Z ->
+  new (of_Z d) two = {| rem := zero; blade := d + 4 * ((- d + 6) / 4) |}.
+Proof. exact new_neg_quarter_turns. Qed.
+Print Assumptions C02_fast_path_negative.
